@@ -628,3 +628,57 @@ func HoldsEntering(b *ssa.BasicBlock, pred func(Fact) bool, depth int) bool {
 	}
 	return true
 }
+
+// contradicts: some fact of a is the negation of a fact of b (same condition,
+// opposite outcome).
+func contradicts(a, b []Fact) bool {
+	for _, x := range a {
+		for _, y := range b {
+			if x.Cond == y.Cond && x.Pol != y.Pol {
+				return true
+			}
+		}
+	}
+	return false
+}
+
+// HoldsAtJoin reports whether pred is established at instruction at: by a
+// dominating fact, or at a dominating join on every incoming edge that is
+// consistent with what is known at the instruction (an edge carrying the
+// negation of a fact that holds at the instruction cannot have led there).
+// The shape `if a && x == y { … } else { if a { use } }`: the use is reached
+// from the join of "a false" and "x != y", and only the latter agrees with a.
+func HoldsAtJoin(at ssa.Instruction, pred func(Fact) bool) bool {
+	fs := FactsAtInstr(at)
+	if HasFact(fs, pred) {
+		return true
+	}
+	var entering func(d *ssa.BasicBlock, depth int) bool
+	entering = func(d *ssa.BasicBlock, depth int) bool {
+		if depth > 6 {
+			return false
+		}
+		n := 0
+		for _, p := range d.Preds {
+			ef := FactsAtEdge(p, d)
+			if contradicts(ef, fs) {
+				continue
+			}
+			n++
+			if HasFact(ef, pred) {
+				continue
+			}
+			if len(p.Preds) >= 2 && entering(p, depth+1) {
+				continue
+			}
+			return false
+		}
+		return n > 0
+	}
+	for d, k := at.Block(), 0; d != nil && k < 12; d, k = Idom(d), k+1 {
+		if len(d.Preds) >= 2 && entering(d, 0) {
+			return true
+		}
+	}
+	return false
+}
